@@ -20,9 +20,9 @@ type wlOpts struct {
 	wYield    int
 	reacquire int // percent: after a close, request the same scope again
 	values    []int64
-	closer    int // percent: a task that closes the root concurrently
-	closers   int // max number of concurrent closer tasks
-	afterOps  int // operations a task performs after its closeroot (C08)
+	closer    int  // percent: a task that closes the root concurrently
+	closers   int  // max number of concurrent closer tasks
+	afterOps  int  // operations a task performs after its closeroot (C08)
 	ownGauge  bool // each gauge identity is updated by one task only
 }
 
